@@ -10,7 +10,10 @@ import io
 import re
 import random
 import operator
+import signal
+import resource
 import contextlib
+import multiprocessing as mp
 from fractions import Fraction as Fr
 from .common import Result, pmap, seed_all, jsonable
 
@@ -94,16 +97,16 @@ def split_line(line):
     return parts[0].strip(), parts[1], parts[2].strip()
 
 
-def relation(line):
-    """'lhs cmp rhs' -> (cmp, N, D) with lhs - rhs = N/D;  D is None when constant"""
+def relation(line, g=None):
+    """'lhs cmp rhs' -> (cmp, N, D, G) with lhs - rhs = N/D;  D is None when constant; G: extra scale terms"""
     lhs, cmp, rhs = split_line(line)
     (ln, ld), (rn, rd) = rat(ast.parse(lhs, mode='eval').body), rat(ast.parse(rhs, mode='eval').body)
     n, d = (p_add(ln, rn, -1), ld) if ld == rd else (p_add(p_mul(ln, rd), p_mul(rn, ld), -1), p_mul(ld, rd))
     if not d:
-        return cmp, {}, {}                       # identically undefined
+        return cmp, {}, {}, g                    # identically undefined
     if list(d) == [()]:
-        return cmp, {m: c / d[()] for m, c in n.items()}, None
-    return cmp, n, d
+        return cmp, {m: c / d[()] for m, c in n.items()}, None, g
+    return cmp, n, d, g
 
 
 def p_eval(p, env):
@@ -145,7 +148,7 @@ def zpoly(p, V, absolute=False):
 def zrel(rel, V, eps):
     """-> (truth, sure_true, sure_false) z3 formulas of one relation (see `rule`)"""
     z3 = _z3()
-    cmp, n, d = rel
+    cmp, n, d, g = rel
     N = zpoly(n, V)
     zero = z3.RealVal(0)
     base = {'<=': N <= zero, '>=': N >= zero, '<': N < zero, '>': N > zero, '==': N == zero, '=': N == zero,
@@ -160,7 +163,7 @@ def zrel(rel, V, eps):
         t, undef = z3.Or(z3.And(D > zero, base[cmp]), z3.And(D < zero, fl)), D == zero
     if eps == 0:
         return t, t, z3.Not(t)
-    S = zpoly(n, V, absolute=True) * z3.RealVal(str(eps))
+    S = (zpoly(n, V, absolute=True) + zpoly(g or {}, V, absolute=True)) * z3.RealVal(str(eps))
     big = z3.Or(N >= S, -N >= S)
     if cmp in ('==', '='):
         return t, t, z3.Or(undef, z3.And(z3.Not(t), big))
@@ -225,7 +228,7 @@ def _ev(expr, env):
     return eval(compile(tree, '<c12>', 'eval'), {'Fr': Fr, '__builtins__': {}}, dict(env))
 
 
-def line_status(line, env, eps):
+def line_status(line, env, eps, g=None):
     """direct evaluation of one line at a point -> (truth, sure_true, sure_false)"""
     lhs, cmp, rhs = split_line(line)
     try:
@@ -235,9 +238,9 @@ def line_status(line, env, eps):
     t = bool(OPS[cmp](l, r))
     if eps == 0:
         return t, t, not t
-    _, n, d = relation(line)
+    _, n, d, _ = relation(line)
     den = abs(p_eval(d, env)) if d else Fr(1)
-    big = abs(l - r) * den >= eps * p_scale(n, env)
+    big = abs(l - r) * den >= eps * (p_scale(n, env) + p_scale(g or {}, env))
     if cmp in ('==', '='):
         return t, t, (not t) and big
     if cmp == '!=':
@@ -245,9 +248,9 @@ def line_status(line, env, eps):
     return t, t and big, (not t) and big
 
 
-def disagree_at(in_lines, case_lines, env, eps):
-    si = [line_status(l, env, eps) for l in in_lines]
-    sc = [[line_status(l, env, eps) for l in c] for c in case_lines]
+def disagree_at(in_lines, case_lines, env, eps, g=None):
+    si = [line_status(l, env, eps, g) for l in in_lines]
+    sc = [[line_status(l, env, eps, g) for l in c] for c in case_lines]
     if eps == 0:
         return all(s[0] for s in si) != any(all(s[0] for s in c) for c in sc)
     Tst, Tsf = all(s[1] for s in si), any(s[2] for s in si)
@@ -271,12 +274,17 @@ def names_of(texts):
     return out
 
 
-def validate(in_lines, case_lines, exact_only, stats, extra_names=()):
+def validate(in_lines, case_lines, exact_only, stats, extra_names=(), gscale=False):
     """-> None when equivalent, else (mode, point, confirmed)"""
     names = names_of([in_lines] + case_lines)
     names += [v for v in extra_names if v not in names]
     inp = [relation(l) for l in in_lines]
-    cases = [[relation(l) for l in c] for c in case_lines]
+    g = None
+    if gscale:                                           # solved forms: scale of the whole system (see `rule`)
+        g = {((v, 1),): Fr(1) for v in names}
+        g[()] = sum(abs(r[1].get((), 0)) for r in inp) or Fr(0)
+        inp = [relation(l, g) for l in in_lines]
+    cases = [[relation(l, g) for l in c] for c in case_lines]
     r, pt = zquery(inp, cases, names, 0)
     mode = 'exact'
     if r == 'sat' and not exact_only and has_float([in_lines] + case_lines):
@@ -292,11 +300,11 @@ def validate(in_lines, case_lines, exact_only, stats, extra_names=()):
         for _ in range(400):
             env = {v: Fr(rng.choice([0, 1, -1, rng.randint(-9, 9), rng.randint(-10 ** 6, 10 ** 6)]),
                          rng.choice([1, 1, 2, 3, 7])) for v in names}
-            if disagree_at(in_lines, case_lines, env, eps):
+            if disagree_at(in_lines, case_lines, env, eps, g):
                 return mode + '-sampled', env, True
         return None
     stats['disagreements_checked'] = stats.get('disagreements_checked', 0) + 1
-    return mode, pt, disagree_at(in_lines, case_lines, pt, eps)
+    return mode, pt, disagree_at(in_lines, case_lines, pt, eps, g)
 
 
 # ----------------------------------------------------------------------------- program generators
@@ -359,7 +367,12 @@ def gen_program(family, seed):
         if family == 'simplify-opposed':              # the same two sides with two opposite comparators
             l, c, r = split_line(_linear_line(rng, names, style, '<='))
             a, b = rng.choice([('<=', '>='), ('<', '>'), ('<', '>='), ('<=', '>')])
-            lines = (lines[:nl - 1] + ['%s %s %s' % (l, a, r), '%s %s %s' % (l, b, r)])
+            second = '%s %s %s' % (l, b, r)
+            if rng.random() < .5:                         # opposed only after simplification (merge of bounds)
+                f = rng.choice([2, 4, 0.5, -1, -2])
+                second = '%s*(%s) %s %s*(%s)' % (_num(f), l, b if f > 0 else FLIP[b], _num(f), r)
+                spec['scaled'] = True
+            lines = (lines[:nl - 1] + ['%s %s %s' % (l, a, r), second])
             rng.shuffle(lines)
         kw['all'] = rng.random() < .8
         if rng.random() < .3:
@@ -369,24 +382,30 @@ def gen_program(family, seed):
     elif family in ('simplify-rational', 'simplify-product'):
         nv = rng.randint(2, 4) if family == 'simplify-product' else rng.randint(1, 4)
         names, kw = _naming(rng, nv)
-        xk = rng.choice(names)
-        oth = [v for v in names if v != xk] or [xk]
-        xi, xj = rng.choice(oth), rng.choice(oth)
+        xk = rng.choice(names)                           # the single variable factor
+        oth = [v for v in names if v != xk]
+        rng.shuffle(oth)
+        xi, xj = (oth + [None, None])[:2]
         a, b, c = _num(_coef(rng, style)), _num(_coef(rng, style)), _num(_coef(rng, style))
         cmp = rng.choice(ALLCMP)
         if family == 'simplify-product':
-            form = rng.choice(['%(a)s*%(xi)s*%(xk)s %(cmp)s %(c)s', '%(a)s*%(xi)s*%(xk)s + %(b)s %(cmp)s %(c)s'])
-        elif nv == 1:
-            form = rng.choice(['%(a)s/%(xk)s %(cmp)s %(c)s', '%(a)s/%(xk)s + %(b)s %(cmp)s %(c)s'])
+            forms = ['%(a)s*%(xi)s*%(xk)s %(cmp)s %(c)s', '%(a)s*%(xi)s*%(xk)s + %(b)s %(cmp)s %(c)s']
         else:
-            form = rng.choice(['%(a)s*%(xi)s/%(xk)s + %(b)s %(cmp)s %(c)s', '%(a)s/%(xk)s %(cmp)s %(c)s',
-                               '%(xi)s/%(xk)s + %(b)s %(cmp)s %(c)s*%(xj)s', '%(xi)s/%(xk)s %(cmp)s %(c)s',
-                               '(%(a)s*%(xi)s + %(b)s*%(xj)s)/%(xk)s %(cmp)s %(c)s',
-                               '%(a)s*%(xi)s/%(xk)s %(cmp)s %(b)s*%(xj)s/%(xk)s + %(c)s',
-                               '%(c)s %(cmp)s %(a)s*%(xi)s/%(xk)s'])
-        lines = [form % dict(a=a, b=b, c=c, xi=xi, xj=xj, xk=xk, cmp=cmp)]
+            forms = ['%(a)s/%(xk)s %(cmp)s %(c)s', '%(a)s/%(xk)s + %(b)s %(cmp)s %(c)s']
+            if xi:
+                forms = forms[:1] + ['%(a)s*%(xi)s/%(xk)s + %(b)s %(cmp)s %(c)s', '%(xi)s/%(xk)s %(cmp)s %(c)s',
+                                     '%(c)s %(cmp)s %(a)s*%(xi)s/%(xk)s', '%(a)s*%(xi)s/%(xk)s**2 %(cmp)s %(c)s']
+            if xj:
+                forms += ['%(xi)s/%(xk)s + %(b)s %(cmp)s %(c)s*%(xj)s',
+                          '(%(a)s*%(xi)s + %(b)s*%(xj)s)/%(xk)s %(cmp)s %(c)s',
+                          '%(a)s*%(xi)s/%(xk)s %(cmp)s %(b)s*%(xj)s/%(xk)s + %(c)s']
+        lines = [rng.choice(forms) % dict(a=a, b=b, c=c, xi=xi, xj=xj, xk=xk, cmp=cmp)]
         if len(oth) > 1 and rng.random() < .4:
             lines.append(_linear_line(rng, oth, style))
+            rng.shuffle(lines)
+        if xi and rng.random() < .6:                      # isolate the variable with a constant coefficient
+            kw['target'] = [xi]
+        spec['factor'] = xk
         kw['all'] = True
     elif family == 'solve':
         nv = rng.randint(1, 4)
@@ -459,6 +478,8 @@ def check(spec, res, stats):
     import mystic.symbolic as ms
     key = 'C12/bounded/%s/same-solution-set' % fam
     exact_only, extra_names = False, ()
+    old = signal.signal(signal.SIGALRM, _alarm)
+    signal.alarm(CALL_LIMIT)
     try:
         with contextlib.redirect_stdout(io.StringIO()):
             if fam.startswith('simplify'):
@@ -504,6 +525,9 @@ def check(spec, res, stats):
         stats.setdefault('aborted', []).append('%s: %s: %s' % (fam, type(e).__name__, str(e)[:80]))
         res.case(key + '|aborted', False)
         return
+    finally:
+        signal.alarm(0)
+        signal.signal(signal.SIGALRM, old)
     if cases is None:
         stats['aborted'] = stats.get('aborted', []) + ['%s: all=False gave one of several alternatives' % fam]
         res.case(key + '|one-of-many', False)
@@ -512,7 +536,12 @@ def check(spec, res, stats):
         stats['inconsistent_skipped'] = stats.get('inconsistent_skipped', 0) + 1     # outside the class
         return
     try:
-        bad = validate(in_lines, cases, exact_only, stats, extra_names)
+        if 'factor' in spec and any(d and any(v != spec['factor'] for m in d for v, _ in m)
+                                    for c in cases for _, _, d, _ in map(relation, c)):
+            stats['outside_class_second_factor'] = stats.get('outside_class_second_factor', 0) + 1
+            res.case(key + '|second-factor', False)       # simplify isolated a variable with a variable coefficient
+            return
+        bad = validate(in_lines, cases, exact_only, stats, extra_names, gscale=(fam == 'solve'))
     except (ValueError, SyntaxError) as e:
         stats.setdefault('unparsed', []).append('%s: %r -> %r: %s' % (fam, spec.get('text'), out, str(e)[:80]))
         res.case(key + '|unparsed', False)
@@ -526,27 +555,38 @@ def check(spec, res, stats):
     if not confirmed:
         stats.setdefault('unconfirmed', []).append('%s: %r at %s' % (fam, in_lines, pt))
         return
-    tag = '#opposed-pair' if fam == 'simplify-opposed' else '#' + mode
+    cond = re.compile(r'^%s\s*(!=|<|>)\s*0$' % re.escape(spec.get('factor', '?')))
+    dropped = fam.startswith('simplify') and any(len([l for l in c if not cond.match(l)]) < len(in_lines) for c in cases)
+    tag = '#opposed-pair' if (fam == 'simplify-opposed' and not spec.get('scaled')) else '#line-dropped' if dropped else '#' + mode
     res.violation(key + tag, 'input %r and result %r disagree (%s) at %s' % (
         in_lines, cases, mode, {k: str(v) for k, v in pt.items()}), jsonable(spec))
 
 
+def _alarm(*a):
+    raise TimeoutError('mystic call exceeded %d s' % CALL_LIMIT)
+
+
+CALL_LIMIT = 60
+
+
 def _work(spec):
+    if mp.current_process().name != 'MainProcess':       # mystic's fallback can enumerate 12! permutations
+        resource.setrlimit(resource.RLIMIT_AS, (3 * 2 ** 30, 3 * 2 ** 30))
     res, stats = Result('', ''), {}
     check(spec, res, stats)
     return res.part(), stats
 
 
-COUNTS = {'quick': {'simplify-linear': 28, 'simplify-opposed': 4, 'simplify-rational': 12, 'simplify-product': 4,
+COUNTS = {'quick': {'simplify-linear': 24, 'simplify-opposed': 8, 'simplify-rational': 12, 'simplify-product': 4,
                     'solve': 12, 'linear_symbolic': 24, 'symbolic_bounds': 24},
-          'thorough': {'simplify-linear': 700, 'simplify-opposed': 50, 'simplify-rational': 300,
+          'thorough': {'simplify-linear': 680, 'simplify-opposed': 70, 'simplify-rational': 300,
                        'simplify-product': 50, 'solve': 400, 'linear_symbolic': 400, 'symbolic_bounds': 400}}
 
 
 def run(tier='quick', seed=0):
     res = Result(
         rule='seeded generator of constraint systems: simplify (1-4 variables, 1-4 lines, comparators == = <= >= < > '
-             '!=, integer / fractional / 1e+-8 coefficients, terms on both sides, naming x0.., sparse two-digit '
+             '!=, integer / fractional / 1e+-8 coefficients, terms on both sides, pairs of lines with the same two sides (also scaled by a constant) and opposite comparators, naming x0.., sparse two-digit '
              'indices, base y, name lists incl. prefixes of each other; options all/cycle/target), single-factor '
              'rational and product relations (all=True, every returned case with its sign conditions; a point where '
              'the input divides by zero does not satisfy it), solve on consistent linear equality systems, '
@@ -556,7 +596,12 @@ def run(tier='quick', seed=0):
              'a float literal occurs, with the tolerance band eps=1e-9*sum|monomials of lhs-rhs|: a relation is '
              'sure-true if it holds and |lhs-rhs|>=eps*scale (equalities: if it holds), sure-false if it fails and '
              '|lhs-rhs|>=eps*scale (!=: if it fails); violation = sure-true input with sure-false output or the '
-             'converse, confirmed by direct evaluation of the texts at the z3 model with Fractions.  A distinct '
+             'converse, confirmed by direct evaluation of the texts at the z3 model with Fractions.  For solve the '
+             'scale of every relation additionally contains sum|x_v| + sum|constants of the system| (elimination '
+             'error is relative to the system, not to one solved line).  Outputs whose conditions involve a second '
+             'variable factor are counted outside the class.  Sub-cases: #opposed-pair (two lines with identical '
+             'sides and opposite comparators), #line-dropped (a returned case has fewer relations than the input '
+             'has lines), else #exact / #band.  A distinct '
              'case is a distinct program text; non-trivial = the returned text differs from the input.',
         bound='%s tier: %s programs per family, seed-derived' % (tier, COUNTS[tier]))
     specs = []
